@@ -622,6 +622,11 @@ def bezier_algebra(P, rep, rule="EXPR.bezier"):
         if set(g) != {"a", "b", "c", "d"}:
             continue
         n += 1
+        if all(sc(v["c"][0]).get("k") == "MemberExpr" and sc(v["c"][0]).get("c") and sc(sc(v["c"][0])["c"][0]).get("k") == "DeclRefExpr" for v in g.values()):
+            # the four coefficients are read out of a record computed elsewhere (a helper returning a struct): not followed
+            rep.unknown(rule, "coefficients at line %s are members of a record returned by a helper; this rule reads their definitions in the "
+                              "search function only" % g["a"].get("l"))
+            continue
         sym = norm.Sym(P, F, inline_locals=False, hook=hook_for(F, ["cp_i"]))
         co = {k: sym(v["c"][0]) for k, v in g.items()}
         poly = co["a"] * t ** 3 + co["b"] * t ** 2 + co["c"] * t + co["d"]
@@ -946,11 +951,24 @@ def newton_objective(P, rep, rule="NEWTON.objective"):
         raise AnalysisBroken("%s: best-so-far local not identified (%d)" % (F.qn, len(best)))
     best = best[0]
     sites = []
-    for g in F.walk():
-        if g.get("k") == "IfStmt":
-            c = sc(g["c"][0])
-            if c.get("k") == "BinaryOperator" and c.get("op") in ("<", "<=") and astq.is_ref_to(sc(c["c"][1]), best):
-                sites.append((g, c))
+    for c in F.walk():
+        if not (c.get("k") == "BinaryOperator" and c.get("op") in ("<", "<=") and astq.is_ref_to(sc(c["c"][1]), best)):
+            continue
+        # the if statement it decides: directly in the condition, or through a named bool used in one
+        g = None
+        for a in F.ancestors(c):
+            if a.get("k") == "IfStmt" and any(y is c for y in F.walk(a["c"][0])):
+                g = a
+                break
+            if a.get("k") == "VarDecl" and "bool" in (a.get("t") or ""):
+                for y in F.walk():
+                    if y.get("k") == "IfStmt" and any(z.get("k") == "DeclRefExpr" and z.get("r") == a["r"] for z in F.walk(y["c"][0])) \
+                            and any(z.get("k") == "MemberExpr" and z.get("n") == "point" for z in F.walk(y["c"][1])):
+                        g = y
+                        break
+                break
+        if g is not None:
+            sites.append((g, c))
     rep.floor(rule, len(sites), 2, "accept tests (Cartesian and spherical)")
 
     def system_of(node):
@@ -987,7 +1005,12 @@ def newton_objective(P, rep, rule="NEWTON.objective"):
             continue
         try:
             pt = env_before(P, F, stores[0], seed=seed).ev(stores[0]["c"][-1])
-            Hacc = env_before(P, F, g, seed=seed).ev(c["c"][0])
+            cstmt = c
+            for a in F.ancestors(c):
+                if F.parent.get(a["i"]) is not None and F.parent[a["i"]].get("k") == "CompoundStmt":
+                    cstmt = a
+                    break
+            Hacc = env_before(P, F, cstmt if cstmt is not c else g, seed=seed).ev(c["c"][0])
         except AnalysisBroken as e:
             rep.unknown(rule, "%s accept site: %s" % (system, e))
             continue
